@@ -553,7 +553,12 @@ int cli::run(size_t argc, const char** argv)
         {
             std::filesystem::path path(*rit);
             path = path.lexically_normal();
-            rvutils::pbo::pbofile pbo(path);
+            // Only ever open existing PBOs here (the path-constructor creates missing files)
+            rvutils::pbo::pbofile pbo;
+            if (std::filesystem::exists(path))
+            {
+                pbo.open(path);
+            }
             if (!pbo.good())
             {
                 std::cout << "Failed to parse PBO '" << path << "'.";
